@@ -24,6 +24,18 @@ CLAIMED = {
    technique="deterministic simulation: ordered request log of the simulated block store compared with an independent depth-first link-order walk, each operation repeated on cold nodes in-process",
    text="Seeded search over file DAGs, sharded directories and trees x operations (full read via AsBytes / Read loops, preload reify, MapIterator, Length, entity-selector walk, path traversal with match/preload/entity target); the first-request order must equal the model's pre-order walk on each of 3 repetitions.",
    note="Go map order inside the library is not owned by the simulator, it is re-drawn per repetition; the oracle is a fixed order so a dependence shows as a mismatch, but only with the probability that the runtime picks a different order."),
+ "C10": dict(level="exploration", ref="DESIGN.md §3 C10",
+   technique="deterministic simulation: one logical input built repeatedly under seeded schedules (input-stream fragmentation, entry-slice permutations, in-process repetitions re-drawing Go map order, observed via commit order at the simulated store); all (link,size) results must be identical",
+   text="Seeded search over contents x chunkers (size-N, rabin) x widths with 7 fragmentation schedules per input, and over entry sets (incl. mined hash-prefix collisions, sets straddling the auto-shard threshold) x permutations x repetitions through BuildUnixFSDirectory, BuildUnixFSShardedDirectory and the quick builder. No reference value is involved, only equality among builds.",
+   note="Map iteration order inside the shard builder is observed, not controlled (distinct commit orders are counted in evidence)."),
+ "C13": dict(level="exploration", ref="DESIGN.md §3 C13",
+   technique="deterministic simulation with data-fault injection on a trusted simulated disk: bit rot, torn/misdirected reads and grammar-aware rewrites of dag-pb/UnixFS fields of stored blocks (at rest or from the k-th read), every node operation under recover() with event budgets and a wall-clock watchdog confirmed in a fresh process",
+   text="Seeded search over DAGs x 1-4 stacked corruptions (16 kinds covering the statement's list: type, fanout incl. parent/child mismatch, bitfield longer/shorter/inconsistent, hash type, FileSize/BlockSizes missing/extra/negative/packed, names absent/short/duplicated, Tsize absent) x all node operations (reify lazy+preload, Length, 4 lookup entry points, MapIterator, native Iterator, AsBytes, Seek/Read histories, entity/preload/path selector walks). The decoder clause is fed the harvested payloads and raw bytes: that part is plain input generation.",
+   note="Cycles are excluded by construction. Work bounds are event budgets (16x data size) - generous, aimed at non-termination rather than constant factors."),
+ "C16": dict(level="fault_enumeration", ref="DESIGN.md §3 C16",
+   technique="deterministic simulation with write-side fault injection and crash/restart: commit-time children-durable invariant on every prefix of every build's write sequence; exhaustive failure of every write-protocol step (open, torn write, commit), crash at every write event with restart on durable state, disk-full at several sizes, input-stream errors",
+   text="Per seeded build (file incl. empty/one-byte/multi-level at widths 2..174, symlink, plain/sharded/auto-sharded directory with present and absent external entries, recursive import of a temp tree, quick builder) the whole single-fault plan space is enumerated (strided above 150/400 steps, root block always included). Oracles: children durable at every commit; any write fault => error and nil link; returned link => closure durable; restart after crash => no dangling builder-written link.",
+   note="Exhaustive per generated build, sampled over builds. Links to caller-supplied entries are exempt. The quick builder is judged on ordering only (its API panics on failure)."),
 }
 
 NA = {
@@ -40,7 +52,7 @@ NA = {
  "C19": "Pure function of (random stream, size); the injected reader is a seed, not a fault surface.",
 }
 
-PENDING = {k: "claimed in DESIGN.md; check under construction in this round, not yet registered" for k in ["C10","C13","C16","C17"]}  # id -> reason, for claimed-in-design checks that are not built yet
+PENDING = {k: "claimed in DESIGN.md; check under construction in this round, not yet registered" for k in ["C17"]}  # id -> reason, for claimed-in-design checks that are not built yet
 
 def main():
     checks = []
